@@ -143,6 +143,18 @@ PARSE_ERROR_PROFILES = [
     "profile: x\nviolation: [v]\nvalidations:\n  v:\n    targetClass: doc.Unit\n    propertyConstraints:\n      doc.a:\n        atLeast:\n          count: 1\n",
 ]
 
+# sequences (naming keys) where the profile language expects a mapping
+PARSE_ERROR_PROFILES += [
+    "profile: x\nviolation: [v]\nvalidations:\n  v: [targetClass]\n",
+    "profile: x\nviolation: [v]\nvalidations:\n  v: [message, x, targetClass]\n",
+    "profile: x\nviolation: [v]\nvalidations:\n  v:\n    targetClass: doc.Unit\n    propertyConstraints:\n      doc.a:\n        atLeast: [count]\n",
+    "profile: x\nviolation: [v]\nvalidations:\n  v:\n    targetClass: doc.Unit\n    propertyConstraints:\n      doc.a:\n        atMost: [validation, 1, count]\n",
+    "profile: x\nviolation: [v]\nvalidations:\n  v:\n    targetClass: doc.Unit\n    if: [a, b, propertyConstraints]\n    then: [propertyConstraints]\n",
+    "profile: x\nviolation: [v]\nvalidations:\n  v:\n    targetClass: doc.Unit\n    not: [and]\n",
+    "[profile]\n",
+    "profile: x\nprefixes: [ex]\nviolation: [v]\nvalidations:\n  v:\n    targetClass: doc.Unit\n    propertyConstraints: [doc.a]\n",
+]
+
 GEN_ERROR_PROFILES = [
     # unknown prefix in targetClass
     "profile: x\nviolation: [v]\nvalidations:\n  v:\n    targetClass: nope.Unit\n    propertyConstraints:\n      doc.a:\n        minCount: 1\n",
